@@ -18,5 +18,6 @@ import (
 	_ "verifharness/props/c14"
 	_ "verifharness/props/c15"
 	_ "verifharness/props/c16"
+	_ "verifharness/props/c17"
 	_ "verifharness/props/c20"
 )
